@@ -1239,6 +1239,12 @@ where
         )?
         .enumerate()
         {
+            // A committed matrix is opened at one point at least (native: `MatrixWithoutOpeningPoints`).
+            if mat_points_and_values.is_empty() {
+                return Err(VerificationError::InvalidProofShape(format!(
+                    "batch {batch_idx} mat {mat_idx}: matrix without opening points"
+                )));
+            }
             for (_, ps_at_z) in mat_points_and_values {
                 if mat_opening.len() != ps_at_z.len() {
                     return Err(VerificationError::InvalidProofShape(format!(
